@@ -7,6 +7,7 @@
   range is the variable of some choice, and decoding inverts encoding.
 -/
 import SPModel.Layout
+import SPProofs.Layout.Lemmas
 
 namespace SPModel.C14
 open SPModel SPModel.Layout
@@ -21,27 +22,151 @@ def WF (b : LBlock) : Prop :=
 def Choice (b : LBlock) (i l t : Nat) : Prop :=
   ∃ f, b.factors[i]? = some f ∧ l < f.nlevels ∧ 1 ≤ t ∧ t ≤ b.trials ∧ appliesTrial f t = true
 
+/-- `WF` gives the hypothesis shape used by the helper lemmas -/
+theorem WF.simple {b : LBlock} (hwf : WF b) :
+    ∀ f ∈ b.factors, f.complex = false → f.start = 0 ∧ f.stride = 1 :=
+  fun f hf hc => (hwf f hf).2.2.2 hc
+
+/-- under `WF` a factor without a complex window has `t - 1` earlier trials -/
+theorem previousCount_simple {b : LBlock} (hwf : WF b) {i : Nat} {f : LFactor}
+    (hf : b.factors[i]? = some f) (hc : f.complex = false) (t : Nat) :
+    previousCount f t = t - 1 := by
+  obtain ⟨h0, h1⟩ := hwf.simple f (List.mem_of_getElem? hf) hc
+  exact appliedCount_all f (appliesTrial_of_simple f h0 h1) _
+
+/-- 0-based variable of a choice of a factor without a complex window -/
+theorem encodeVar_simple_pred {b : LBlock} (hwf : WF b) {i : Nat} {f : LFactor}
+    (hf : b.factors[i]? = some f) (hc : f.complex = false) (l t : Nat) :
+    encodeVar b i l t - 1 = simpleOffset b i + l + variablesPerTrial b * (t - 1) := by
+  rw [encodeVar_simple b i l t f hf hc, previousCount_simple hwf hf hc]; omega
+
 theorem encode_range (b : LBlock) (hwf : WF b) (i l t : Nat) (h : Choice b i l t) :
     1 ≤ encodeVar b i l t ∧ encodeVar b i l t ≤ variablesPerSample b := by
-  sorry
+  obtain ⟨f, hf, hl, h1, hT, ha⟩ := h
+  have hvps := variablesPerSample_eq b hwf.simple
+  cases hc : f.complex with
+  | false =>
+    have hoff := simpleOffset_add_le b i f hf hc
+    have := add_mul_lt (simpleOffset b i + l) (variablesPerTrial b) (t - 1) b.trials
+      (by omega) (by omega)
+    rw [encodeVar_simple b i l t f hf hc, previousCount_simple hwf hf hc, hvps, gridVariables,
+      Nat.mul_comm b.trials]
+    omega
+  | true =>
+    have hoff := complexOffset_add_le b i f hf hc
+    have := add_mul_lt l f.nlevels (previousCount f t) (appliedCount f b.trials) hl
+      (appliedCount_pred_lt f t b.trials h1 hT ha)
+    rw [encodeVar_complex b i l t f hf hc, hvps]
+    omega
+
+theorem decode_encode (b : LBlock) (hwf : WF b) (i l t : Nat) (h : Choice b i l t) :
+    decodeVariable b (encodeVar b i l t) = some (i, l) := by
+  obtain ⟨f, hf, hl, h1, hT, ha⟩ := h
+  cases hc : f.complex with
+  | false =>
+    have hoff := simpleOffset_add_le b i f hf hc
+    have hx := encodeVar_simple_pred hwf hf hc l t
+    have hlt : encodeVar b i l t - 1 < gridVariables b := by
+      have := add_mul_lt (simpleOffset b i + l) (variablesPerTrial b) (t - 1) b.trials
+        (by omega) (by omega)
+      rw [hx, gridVariables, Nat.mul_comm b.trials]
+      omega
+    have hmod : (encodeVar b i l t - 1) % variablesPerTrial b = simpleOffset b i + l := by
+      rw [hx, Nat.add_mul_mod_self_left, Nat.mod_eq_of_lt (by omega)]
+    have hgo := simpleTuple_block b i l f hf hc hl
+    have hne : variablesPerTrial b ≠ 0 := by omega
+    simp only [decodeVariable, hlt, if_true, hne, if_false, hmod]
+    exact hgo
+  | true =>
+    have hnl : f.nlevels ≠ 0 := by omega
+    have hr := add_mul_lt l f.nlevels (previousCount f t) (appliedCount f b.trials) hl
+      (appliedCount_pred_lt f t b.trials h1 hT ha)
+    have hgo := decode_go_block b i (l + f.nlevels * previousCount f t) f hf hc hnl hr
+    have hx : encodeVar b i l t - 1
+        = gridVariables b + complexOffset b i + (l + f.nlevels * previousCount f t) := by
+      rw [encodeVar_complex b i l t f hf hc]; omega
+    have hge : ¬ (gridVariables b + complexOffset b i + (l + f.nlevels * previousCount f t)
+        < gridVariables b) := by omega
+    have hmod : (l + f.nlevels * previousCount f t) % f.nlevels = l := by
+      rw [Nat.add_mul_mod_self_left, Nat.mod_eq_of_lt hl]
+    simp only [decodeVariable, hx, hge, if_false]
+    rw [hgo, hmod]
 
 theorem encode_injective (b : LBlock) (hwf : WF b) (i l t i' l' t' : Nat)
     (h : Choice b i l t) (h' : Choice b i' l' t') (heq : encodeVar b i l t = encodeVar b i' l' t') :
     i = i' ∧ l = l' ∧ t = t' := by
-  sorry
+  have hd := decode_encode b hwf i l t h
+  have hd' := decode_encode b hwf i' l' t' h'
+  rw [heq, hd'] at hd
+  have hi : i' = i := by injection hd with hd; injection hd
+  have hl : l' = l := by injection hd with hd; injection hd
+  subst hi hl
+  refine ⟨rfl, rfl, ?_⟩
+  obtain ⟨f, hf, hl, h1, hT, ha⟩ := h
+  obtain ⟨f', hf', -, h1', hT', ha'⟩ := h'
+  have hff : f' = f := by rw [hf] at hf'; injection hf' with e; exact e.symm
+  subst hff
+  cases hc : f'.complex with
+  | false =>
+    have hoff := simpleOffset_add_le b i' f' hf hc
+    have hpos : 0 < variablesPerTrial b := by omega
+    rw [encodeVar_simple b i' l' t f' hf hc, encodeVar_simple b i' l' t' f' hf hc,
+      previousCount_simple hwf hf hc, previousCount_simple hwf hf hc] at heq
+    have : variablesPerTrial b * (t - 1) = variablesPerTrial b * (t' - 1) := by omega
+    have := Nat.eq_of_mul_eq_mul_left hpos this
+    omega
+  | true =>
+    rw [encodeVar_complex b i' l' t f' hf hc, encodeVar_complex b i' l' t' f' hf hc] at heq
+    have : f'.nlevels * previousCount f' t = f'.nlevels * previousCount f' t' := by omega
+    have := Nat.eq_of_mul_eq_mul_left (by omega : 0 < f'.nlevels) this
+    exact appliedCount_pred_inj f' t t' h1 h1' ha ha' this
 
 theorem encode_surjective (b : LBlock) (hwf : WF b) (v : Nat) (hv : 1 ≤ v ∧ v ≤ variablesPerSample b) :
     ∃ i l t, Choice b i l t ∧ encodeVar b i l t = v := by
-  sorry
-
-theorem decode_encode (b : LBlock) (hwf : WF b) (i l t : Nat) (h : Choice b i l t) :
-    decodeVariable b (encodeVar b i l t) = some (i, l) := by
-  sorry
+  obtain ⟨hv1, hv2⟩ := hv
+  rw [variablesPerSample_eq b hwf.simple] at hv2
+  by_cases hgrid : v - 1 < gridVariables b
+  · -- a grid variable
+    have hpos : 0 < variablesPerTrial b := by
+      rcases Nat.eq_zero_or_pos (variablesPerTrial b) with h0 | h0
+      · simp [gridVariables, h0] at hgrid
+      · exact h0
+    have hk := Nat.mod_lt (v - 1) hpos
+    have hq : (v - 1) / variablesPerTrial b < b.trials := by
+      rw [Nat.div_lt_iff_lt_mul hpos]; exact hgrid
+    have hdm := Nat.div_add_mod (v - 1) (variablesPerTrial b)
+    generalize (v - 1) % variablesPerTrial b = k at hk hdm
+    generalize (v - 1) / variablesPerTrial b = q at hq hdm
+    obtain ⟨i, f, hf, hc, hlo, hhi⟩ := simple_exists_slot b k hk
+    obtain ⟨h0, hs1⟩ := hwf.simple f (List.mem_of_getElem? hf) hc
+    refine ⟨i, k - simpleOffset b i, q + 1, ⟨f, hf, by omega, by omega, by omega,
+        appliesTrial_of_simple f h0 hs1 _⟩, ?_⟩
+    rw [encodeVar_simple b i _ _ f hf hc, previousCount_simple hwf hf hc]
+    simp only [Nat.add_sub_cancel]
+    omega
+  · -- a variable of a complex factor
+    have hk : v - 1 - gridVariables b < complexTotal b := by omega
+    obtain ⟨i, f, hf, hc, hlo, hhi⟩ := complex_exists_slot b _ hk
+    obtain ⟨-, -, hnl, -⟩ := hwf f (List.mem_of_getElem? hf)
+    have hq : (v - 1 - gridVariables b - complexOffset b i) / f.nlevels
+        < appliedCount f b.trials := by
+      rw [Nat.div_lt_iff_lt_mul hnl, Nat.mul_comm]; omega
+    have hl := Nat.mod_lt (v - 1 - gridVariables b - complexOffset b i) hnl
+    have hdm := Nat.div_add_mod (v - 1 - gridVariables b - complexOffset b i) f.nlevels
+    generalize (v - 1 - gridVariables b - complexOffset b i) % f.nlevels = l at hl hdm
+    generalize (v - 1 - gridVariables b - complexOffset b i) / f.nlevels = q at hq hdm
+    obtain ⟨t, ht1, htT, hta, htq⟩ := appliedCount_exists_trial f b.trials q hq
+    refine ⟨i, l, t, ⟨f, hf, hl, ht1, htT, hta⟩, ?_⟩
+    rw [encodeVar_complex b i _ _ f hf hc, previousCount, htq]
+    omega
 
 /-- the closed form behind the cached counting loop `_get_previous_trials_variable_count` -/
 theorem previousCount_step (f : LFactor) (t : Nat) (ht : 1 ≤ t) :
     previousCount f (t + 1) = previousCount f t + (if appliesTrial f t then 1 else 0) := by
-  sorry
+  have hs := appliedCount_succ f (t - 1)
+  have e : t - 1 + 1 = t := by omega
+  rw [e] at hs
+  simpa [previousCount] using hs
 
 /-- Non-vacuity: a transition-like factor (complex, start 1) next to two simple factors, 4 trials. -/
 example : encodeVar ⟨[⟨2, false, 0, 1, 1⟩, ⟨3, false, 0, 1, 1⟩, ⟨2, true, 1, 1, 1⟩], 4⟩ 2 1 3 = 24
